@@ -96,6 +96,8 @@ func c01(r *ev.Result, tier string) {
 	if !isQuick(tier) {
 		brokerRacePass(r)
 	}
+	/* A tear-down that lasts, with time passing and the system clock set. */
+	quietSpell(r, "C01")
 	/* The HTTP seam: the same rule through the real handlers. */
 	c01HTTP(r)
 	r.Rule += "; plus the HTTP seam: every ordered pair of streams over /i/{id}, /o/{id} with ids {k, kk, K, k%2Fx, k%20, %6B} and /io through the real handlers over TLS, with a probe line and a probe chunk"
